@@ -347,9 +347,10 @@ pub fn c19(tier: Tier) -> i32 {
     let run = Run::new("C19", "model_checking", tier);
     let depth = if tier == Tier::Quick { 9 } else { 13 };
     let mut all = Vec::new();
-    for n in [1usize, 2, 3] {
+    let ns: Vec<usize> = if tier == Tier::Quick { vec![1, 2, 3] } else { vec![1, 2, 3, 4, 5] };
+    for n in ns {
         let m = XModel { n };
-        let s = bfs(&m, depth, Duration::from_secs(if tier == Tier::Quick { 15 } else { 150 }), &run);
+        let s = bfs(&m, depth, Duration::from_secs(if tier == Tier::Quick { 15 } else { 200 }), &run);
         all.push((m.name(), s));
     }
     // the two indexes as the live tower maintains them (engine T): after every step of every history the
@@ -384,7 +385,7 @@ pub fn c19(tier: Tier) -> i32 {
     run.set("production_size_scripts", json!(fam.0));
     run.set("production_size_steps_checked", json!(fam.1));
     run.set("traces_validated_against_impl", json!(0));
-    run.set("rule", json!("BFS over connect(subset of a 3-transaction universe not in a live block)/disconnect-last on the real TxIndex<Txid,BlockHash> and TxIndex<Locator,Transaction> with N in {1,2,3}, deduplicated on (held blocks with their contents and heights, tip field); after every operation every key and block ever seen is looked up and compared with a VecDeque reference; plus deterministic reorg families at N = 6 and 100; plus engine T: BFS over the live tower (blocks, split polls, reorgs of depth 1-2 with 3 kinds of replacement, 7-block advance, restart, one appointment) from seeds S0 and S4 where after every step the Watcher's locator cache and the Responder's transaction index must hold exactly the last 6 / 100 delivered blocks with exactly their transactions and the right height"));
+    run.set("rule", json!("BFS over connect(subset of a 3-transaction universe not in a live block)/disconnect-last on the real TxIndex<Txid,BlockHash> and TxIndex<Locator,Transaction> with N in {1,2,3} (thorough: up to 5), deduplicated on (held blocks with their contents and heights, tip field); after every operation every key and block ever seen is looked up and compared with a VecDeque reference; plus deterministic reorg families at N = 6 and 100; plus engine T: BFS over the live tower (blocks, split polls, reorgs of depth 1-2 with 3 kinds of replacement, 7-block advance, restart, one appointment) from seeds S0 and S4 where after every step the Watcher's locator cache and the Responder's transaction index must hold exactly the last 6 / 100 delivered blocks with exactly their transactions and the right height"));
     run.assume("the same txid never appears in two live blocks (impossible on a valid chain)");
     run.finish()
 }
